@@ -399,3 +399,115 @@ HARNESSES.append(
       functions=["CachedStore.flush/put (write-back)/_cache_put/get", "KVStore.put/get"],
       bounds=lambda tier: {"flush start": "symbolic whole microsecond in [0.4, 1.2] ms", "second put start": "symbolic whole microsecond in [0, 4] ms, same or different key",
                            "capacity": [1, 2], "then": "put(k3) (capacity pressure) at 20 ms or at a symbolic whole microsecond in [0, 5] ms, flush + reads at 50 ms"}))
+
+
+# ------------------------------------------------------------------ soft-TTL cache
+MS = 1_000_000
+_STTL_BASE_MS = [0, 1, 2, 3, 5, 6, 8]          # op start instants: whole ms after the first put completed (soft 2 ms, hard 5 ms) ...
+
+
+def soft_ttl(sym, tier):
+    """SoftTTLCache(soft 2 ms, hard 5 ms, LRU capacity 1-2) over a KVStore (1 ms reads/writes).  put(k)
+    completes at 1 ms (entry cached at 1 ms); then three operations start at table instants +-1 ns
+    (on and around the soft and hard boundaries): get(k), put(k), get(other key), invalidate(k), or a
+    write to the backing store behind the cache's back.  A get never returns a value that the store
+    had stopped holding hard_ttl or more before the get started; after a completed put through the
+    cache a get returns it or something newer; capacity and LRU bookkeeping hold after every event."""
+    from happysimulator.components.datastore.soft_ttl_cache import SoftTTLCache
+    r = Result()
+    cap = 1 + sym.choice("capacity_minus_1", 2)
+    store = KVStore("kv", read_latency=0.001, write_latency=0.001)
+    c = SoftTTLCache("sttl", backing_store=store, soft_ttl=0.002, hard_ttl=0.005, cache_capacity=cap, cache_read_latency=0.0001)
+    HARD, T0 = 5 * MS, 1 * MS
+    n_ops = 3
+    plan = []
+    k_idx = 0
+    for i in range(n_ops):
+        k_idx = k_idx + sym.choice(f"advance{i}", 3)
+        if k_idx >= len(_STTL_BASE_MS):
+            k_idx = len(_STTL_BASE_MS) - 1
+        kind = sym.choice(f"op{i}", 5)        # 0 get(k) 1 put(k) 2 get(j) 3 invalidate(k) 4 backing store written directly
+        off = (sym.choice(f"offset{i}", 3) - 1) if kind == 0 else 0      # +-1 ns only matters for the reads
+        plan.append((T0 + _STTL_BASE_MS[k_idx] * MS + off, kind))
+    writes = []                 # (instant the store starts holding the value, value) for key k, in execution order
+    gets = []                   # (start, end, value)
+    puts_done = []              # (completion instant, value) of puts through the cache
+    problems = []
+
+    def first(self):
+        yield from c.put("k", 1)
+        writes.append((self.now.nanoseconds, 1))
+
+    def mk(i, t, kind):
+        def body(self):
+            v = 10 + i
+            if kind == 0:
+                b = self.now.nanoseconds
+                got = yield from c.get("k")
+                gets.append((b, self.now.nanoseconds, got))
+            elif kind == 1:
+                yield from c.put("k", v)
+                writes.append((self.now.nanoseconds, v))
+                puts_done.append((self.now.nanoseconds, v))
+            elif kind == 2:
+                yield from c.get("j")
+            elif kind == 3:
+                c.invalidate("k")
+            else:
+                store.put_sync("k", v)
+                writes.append((self.now.nanoseconds, v))
+        return body
+
+    cl = [_Client("first", first)] + [_Client(f"op{i}", mk(i, t, kind)) for i, (t, kind) in enumerate(plan)]
+    store.put_sync("j", 99)
+    sim = Simulation(entities=[store, c] + cl)
+    mon = Monitor(sim, cap=60)
+
+    def invariants(ev):
+        if c.cache_size > cap:
+            problems.append(("cache_within_capacity", c.cache_size, cap))
+        if sorted(c._access_order) != sorted(c.get_cached_keys()):
+            problems.append(("lru_tracks_exactly_the_cached_keys", list(c._access_order), c.get_cached_keys()))
+
+    sim.control.on_event(invariants)
+    sim.schedule([mk_event(0, "go", cl[0])] + [mk_event(t, "go", cl[i + 1]) for i, (t, kind) in enumerate(plan)] + [mk_event(30 * MS, "keepalive", cl[0].__class__("idle", lambda s: None))])
+    try:
+        sim.run()
+    except SpinDetected:
+        pass
+    mon.judge(r, "soft_ttl")
+    for p in problems[:1]:
+        r.bad(p[0], p[1:])
+    for (b, e, got) in gets:
+        # value v is acceptable if the store held it at some instant in (b - HARD, e]
+        ok = False
+        for j, (w, v) in enumerate(writes):
+            until = writes[j + 1][0] if j + 1 < len(writes) else None       # stopped holding it at `until`
+            if v == got and w <= e and (until is None or until > b - HARD):
+                ok = True
+        if not ok:
+            r.bad("never_serves_an_entry_older_than_hard_ttl", {"get": [b, e, got], "store_history": writes, "plan": plan})
+        done_before = [pv for (pt, pv) in puts_done if pt < b]        # same instant = concurrent
+        if done_before:
+            last_t = max(pt for (pt, pv) in puts_done if pt < b)
+            newer = [v for (w, v) in writes if w >= last_t]
+            if got not in newer:
+                r.bad("read_after_completed_write_returns_it", {"get": [b, e, got], "store_history": writes, "puts_completed": puts_done})
+        if b - T0 >= HARD:
+            r.wit.add("get_at_or_after_hard_ttl")
+        elif b - T0 >= 2 * MS:
+            r.wit.add("get_in_stale_zone")
+    if any(kind == 4 for (t, kind) in plan):
+        r.wit.add("store_written_behind_the_cache")
+    r.obs = {"gets": gets, "plan": plan}
+    return r
+
+
+HARNESSES.append(
+    H(name="c16_soft_ttl", fn=soft_ttl, shape="S", budget=lambda tier: 900.0 if tier == "quick" else 3000.0,
+      cubes=lambda tier: [{"capacity_minus_1": a, "op0": b, "op1": d} for a in range(2) for b in range(5) for d in range(5)],
+      require=lambda tier: ["get_at_or_after_hard_ttl", "get_in_stale_zone", "store_written_behind_the_cache"], classify=overlap_classify,
+      functions=["SoftTTLCache.get/put/invalidate/handle_event/_maybe_start_refresh/_store/_evict_lru", "CacheEntry.is_fresh/is_valid", "KVStore.get/put"],
+      bounds=lambda tier: {"ttl": "soft 2 ms, hard 5 ms", "operations": "3 after the initial put, start instants from {0,1,2,3,5,6,8} ms after it (gets: +-1 ns), non-decreasing",
+                           "kinds": ["get(k)", "put(k)", "get(other)", "invalidate(k)", "backing store written directly"], "capacity": [1, 2]},
+      outside=["other TTL values", "more than 3 operations", "invalidate_all"]))
